@@ -690,6 +690,9 @@ func ruleSyncTable(w *World, r *Report, pfx string) {
 					bad = orStr(bad, "the per-group slice is not stored at the group's index")
 				}
 				sl := st.Val.(*ssa.Slice)
+				if xp, ok := sl.X.(*ssa.Phi); ok && xp.Block() == outer.Header {
+					bad = orStr(bad, "the group's slice is taken from the row as it was before the group's decorators were appended (the group reports the previous group's channels, or none)")
+				}
 				if sl.Low == nil || sl.High != nil {
 					bad = orStr(bad, "the per-group slice is not row[start:]")
 				} else if lp, ok := sl.Low.(*ssa.Phi); !ok || lp.Block() != outer.Header {
